@@ -47,6 +47,11 @@ type scriptConn struct {
 	laddr    net.Addr
 	raddr    net.Addr
 	done     chan struct{} // closed by Close (what tcp.Server's connection wrapper offers as Done())
+	// full-duplex overlap: a Write releases the held segments when it begins and takes the bytes only after
+	// `wdelay` (a write blocked on a full socket buffer copies the rest of its data when space frees up) — the
+	// other direction reads the client's next segments while this one still has its data staged
+	wdelay        time.Duration
+	unholdOnWrite bool
 }
 
 func newScriptConn(evs []rEv, laddr, raddr net.Addr) *scriptConn {
@@ -135,6 +140,18 @@ func (c *scriptConn) Write(p []byte) (int, error) {
 	defer c.mu.Unlock()
 	if c.closed {
 		return 0, net.ErrClosed
+	}
+	if c.unholdOnWrite && c.hold >= 0 && len(p) > 0 {
+		c.hold = -1
+		c.cond.Broadcast()
+	}
+	if c.wdelay > 0 && len(p) > 0 {
+		c.mu.Unlock()
+		time.Sleep(c.wdelay)
+		c.mu.Lock()
+		if c.closed {
+			return 0, net.ErrClosed
+		}
 	}
 	n, err := len(p), error(nil)
 	if c.wcalls < len(c.wscript) {
